@@ -79,6 +79,8 @@ func sends(i, k int, r *rand.Rand, seq *int) []label {
 	return ls
 }
 
+func lSendsOne(i int, r *rand.Rand, seq *int) []label { return sends(i, 1, r, seq) }
+
 func cat(ls ...[]label) []label {
 	var out []label
 	for _, l := range ls {
@@ -171,6 +173,55 @@ func generate(e *vh.Env) []scenario {
 		}
 		ph := append(first, []label{lStartL(1, trPipe, false)}, ss, []label{lb(aPeerRead, 1)}, []label{lb(aLocalClose, 1)})
 		add("history/write-error-then-sends", -1, ph...)
+	}
+	// 1d. Session.UpdateHandler: a handler installed before Start, after Start, twice, between events, after the exit,
+	//     racing with the terminating event.  Whoever is in charge at the exit is told, once.
+	sh := func(i, h int) label { return label{kind: aSetHandler, i: i, h: h} }
+	for tr := 0; tr < 2; tr++ {
+		for _, ev := range []int{tLocalClose, tPeerClose, tReadErr, tHandlerPanic, tWriteErr} {
+			st := lStartL(0, tr, true)
+			stH := st
+			stH.h = 1
+			tl := func() []label { return termLabels(ev, 0, r, &seq) }
+			add("handler/before-start", -1, []label{stH}, sends(0, r.Intn(3), r, &seq), tl(), after()[0])
+			add("handler/after-start", -1, []label{st}, []label{sh(0, 1)}, []label{lb(aPeerByte, 0)}, []label{lb(aPeerByte, 0)}, tl(), after()[0])
+			add("handler/twice", -1, []label{stH}, []label{sh(0, 2)}, sends(0, 1+r.Intn(2), r, &seq), []label{sh(0, 3)}, tl(), []label{sh(0, 4)}, []label{lb(aStartAgain, 0)})
+			add("handler/back-to-manager", -1, []label{stH}, []label{sh(0, 0)}, tl(), after()[0])
+			add("handler/race", -1, []label{st}, cat([]label{sh(0, 1)}, tl()), after()[0])
+			add("handler/race", -1, []label{st}, cat(tl(), []label{sh(0, 2)}), after()[0])
+		}
+	}
+	// 1e. a terminating event right behind Start: the loops may not even have reached their first blocking call
+	for tr := 0; tr < 2; tr++ {
+		for ev := 0; ev < nTerm; ev++ {
+			if tr == trTcp && peerWritten(ev) {
+				continue
+			}
+			add("start-race/"+termNames[ev], -1, cat([]label{lStartL(0, tr, true)}, termLabels(ev, 0, r, &seq)), after()[0])
+		}
+	}
+	// 1f. the accept loop under errors of Accept (a genuine EMFILE, see fd.go): temporary errors with back-off and
+	//     recovery, giving up after acceptMaxRetry failures in a row, Server.Close; the count and the sessions are
+	//     untouched by all of it
+	if want("accept-errors") {
+		arr := func(i int) label { return label{kind: lArrive, i: i} }
+		gl := func(k int) label { return label{kind: k} }
+		fr := gl(lFdRestore)
+		frw := fr
+		frw.waitRetry = true
+		nAE := e.Scale(2, 8)
+		for n := 0; n < nAE; n++ {
+			ev := func(i int) []label {
+				return [][]label{{lb(aLocalClose, i)}, {lRF(i, rkErr)}, {lb(aPeerClose, i)}}[r.Intn(3)]
+			}
+			out = append(out, scenario{class: "accept-errors/recover", maxc: 2, amax: 50, strategy: staticStrategy([][]label{
+				{arr(0)}, {gl(lFdExhaust), arr(1), frw}, {arr(2)}, ev(0), {arr(3)}, {gl(lFdExhaust)}, {fr}, {arr(4)}})})
+			am := []int{1, 4, 2, 3, 5, 8, 1, 4}[n%8]
+			out = append(out, scenario{class: "accept-errors/give-up", maxc: 2, amax: am, strategy: staticStrategy([][]label{
+				{arr(0)}, {gl(lFdExhaust), arr(1)}, {fr}, {arr(2)}, ev(0), lSendsOne(0, r, &seq)})})
+			out = append(out, scenario{class: "accept-errors/server-close", maxc: 2, amax: 5, strategy: staticStrategy([][]label{
+				{arr(0)}, {arr(1)}, {gl(lSrvClose)}, sends(0, 2, r, &seq), ev(0), ev(1)})})
+		}
 	}
 	// 2. every order of two terminating events: one after the other, and racing in one burst
 	for tr := 0; tr < 2; tr++ {
@@ -484,7 +535,11 @@ func walk(r *rand.Rand, cfg walkCfg) func(stM, int) []label {
 					cand = []label{lb(aPeerByte, i)}
 				}
 			case c < 19:
-				cand = []label{lb(aStartAgain, i)}
+				if r.Intn(2) == 0 {
+					cand = []label{lb(aStartAgain, i)}
+				} else {
+					cand = []label{{kind: aSetHandler, i: i, h: r.Intn(4)}}
+				}
 			default:
 				cand = []label{lSend(i, []byte{})}
 			}
